@@ -113,6 +113,14 @@ theorem C14_roundtrip_userinfo_v6_noport (u p t : Bytes) (hu : userinfoWf (some 
   show (if utf8Valid whole then Except.ok (some u, some p, wrapV6 whole, none) else _) = _
   rw [hw]
 
+/-- `connect_upstream` forms ONE address (`connect_host`, brackets stripped, and the port) before it
+branches on `--enable-conn-pool`: the key given to `upstream_conn_pool.acquire` and the arguments of
+`TcpServerConnection` are the same. -/
+theorem connectUpstreamP_eq (pool : Bool) (host : Option Bytes) (port : Option Int) :
+    connectUpstreamP pool host port = connectUpstream host port := by
+  unfold connectUpstreamP connectUpstream
+  cases host <;> cases port <;> simp
+
 /-! ## default ports -/
 
 /-- port derived by `_set_line_attributes` for a target with port field `port` -/
@@ -159,13 +167,15 @@ theorem C14_port_zero (cfg : Px.Parser.Cfg) (p : Px.Parser.Parser) (u : Url) (hu
       (Px.Parser.setLineAttributes cfg p u).port = some (Int.ofNat cfg.defaultHttpPort)) ∧
     (p.isTunnel = true →
       (Px.Parser.setLineAttributes cfg p u).port = some 0 ∧
-      connectUpstream (Px.Parser.setLineAttributes cfg p u).host (Px.Parser.setLineAttributes cfg p u).port
-        = .error .httpProtocol) := by
+      ∀ pool, connectUpstreamP pool (Px.Parser.setLineAttributes cfg p u).host
+        (Px.Parser.setLineAttributes cfg p u).port = .error .httpProtocol) := by
   unfold Px.Parser.setLineAttributes
   constructor
   · intro ht; simp [ht, hu]
   · intro ht
     simp only [ht, if_true, hu, Option.getD_some, true_and]
+    intro pool
+    rw [connectUpstreamP_eq]
     unfold connectUpstream
     cases u.hostname <;> simp
 
@@ -174,13 +184,19 @@ theorem C14_port_zero (cfg : Px.Parser.Cfg) (p : Px.Parser.Parser) (u : Url) (hu
 /-- **C14 connect address.**  For a well-formed absolute-form or authority-form
 target whose derived port is not 0, the address handed to the socket layer is
 (host WITHOUT brackets, derived port): brackets of an IPv6 literal are stripped,
-registered names and IPv4 literals are passed unchanged. -/
+registered names and IPv4 literals are passed unchanged — in both branches of
+`connect_upstream`: as arguments of `TcpServerConnection` (default) and as the key
+of `upstream_conn_pool.acquire` (`--enable-conn-pool`), whose new connection is
+opened to that same key. -/
 theorem C14_connect_addr (cfg : Px.Parser.Cfg) (p : Px.Parser.Parser) (t : Target)
     (h : t.WF cfg.allowedSchemes) (hf : t.form ≠ .origin)
     (hd : cfg.defaultHttpPort ≠ 0) (hg : t.port ≠ some 0) :
     let q := Px.Parser.setLineAttributes cfg p t.expected
-    connectUpstream q.host q.port = .ok ⟨t.host.bare, derivedPort cfg p.isTunnel t.port⟩ := by
-  intro q
+    ∀ pool, connectUpstreamP pool q.host q.port = .ok ⟨t.host.bare, derivedPort cfg p.isTunnel t.port⟩ ∧
+      poolAcquire ⟨t.host.bare, derivedPort cfg p.isTunnel t.port⟩ = ⟨t.host.bare, derivedPort cfg p.isTunnel t.port⟩ := by
+  intro q pool
+  refine ⟨?_, rfl⟩
+  rw [connectUpstreamP_eq]
   have hexp : t.expected.hostname = some t.host.text ∧ t.expected.port = t.port.map Int.ofNat := by
     unfold Target.expected
     cases hfm : t.form with
@@ -362,8 +378,8 @@ first request line (any exception: `ValueError`, `IndexError`, invalid scheme), 
 handler answers 400 and tears the connection down; no connect is attempted. -/
 theorem C14_reject_no_connect (cfg : Px.Parser.Cfg) (m u v rest : Bytes) (e : Px.Url.Err)
     (hm : SP ∉ m) (hu : SP ∉ u) (hlf : ∀ c ∈ m ++ SP :: (u ++ SP :: v), c ≠ LF)
-    (he : fromBytes cfg.allowedSchemes u = .error e) :
-    handleFirst cfg [m ++ SP :: (u ++ SP :: v) ++ CRLF ++ rest] = .reject400 := by
+    (he : fromBytes cfg.allowedSchemes u = .error e) (pool : Bool) :
+    handleFirst cfg pool [m ++ SP :: (u ++ SP :: v) ++ CRLF ++ rest] = .reject400 := by
   have hlen : (m ++ SP :: (u ++ SP :: v) ++ CRLF ++ rest).length > 0 := by simp [CRLF]; omega
   have hpar : Px.Parser.parse cfg (Px.Parser.init .request) (m ++ SP :: (u ++ SP :: v) ++ CRLF ++ rest) =
       .error (Px.Parser.urlErr e) := by
@@ -376,8 +392,8 @@ theorem C14_reject_no_connect (cfg : Px.Parser.Cfg) (m u v rest : Bytes) (e : Px
 
 /-- every connect the handler makes is to the parser's host with its brackets
 stripped and to the parser's (non-zero) port -/
-theorem C14_connect_only_parsed (cfg : Px.Parser.Cfg) (segs : List Bytes) (a : Addr) (tn : Bool) (line : Bytes)
-    (h : handleFirst cfg segs = .connected a tn line) :
+theorem C14_connect_only_parsed (cfg : Px.Parser.Cfg) (pool : Bool) (segs : List Bytes) (a : Addr) (tn : Bool)
+    (line : Bytes) (h : handleFirst cfg pool segs = .connected a tn line) :
     ∃ p hst, Px.Parser.parseAll cfg (Px.Parser.init .request) segs = .ok p ∧
       p.host = some hst ∧ hst ≠ [] ∧ a.host = stripBrackets hst ∧ p.port = some a.port ∧ a.port ≠ 0 := by
   unfold handleFirst at h
@@ -390,12 +406,17 @@ theorem C14_connect_only_parsed (cfg : Px.Parser.Cfg) (segs : List Bytes) (a : A
     · simp at h
     · split at h
       · rename_i hproto
+        rw [connectUpstreamP_eq] at h
         cases hc : connectUpstream p.host p.port with
         | error e => rw [hc] at h; cases e <;> simp at h
         | ok a' =>
           rw [hc] at h
           simp only [Outcome.connected.injEq] at h
-          obtain ⟨rfl, _, _⟩ := h
+          have ha : a' = a := by
+            cases pool
+            · simpa using h.1
+            · simpa [poolAcquire] using h.1
+          subst ha
           unfold connectUpstream at hc
           cases hh : p.host with
           | none => rw [hh] at hc; simp at hc
@@ -535,14 +556,17 @@ example : errOf (fromBytes ({} : Px.Parser.Cfg).allowedSchemes (b "ftp://h/")) =
     errOf (fromBytes ({} : Px.Parser.Cfg).allowedSchemes (b "http://h:x/")) = some .valueError := by decide +kernel
 
 /-- `C14_connect_only_parsed`: requests that do connect (model evaluated by the kernel) -/
-example : handleFirst {} [b "GET http://[::1]:8080/x HTTP/1.1\r\nHost: x\r\n\r\n"] =
+example : handleFirst {} false [b "GET http://[::1]:8080/x HTTP/1.1\r\nHost: x\r\n\r\n"] =
     .connected ⟨b "::1", 8080⟩ false (b "GET /x HTTP/1.1") := by decide +kernel
-example : handleFirst {} [b "CONNECT example.com HTTP/1.1\r\n\r\n"] =
+example : handleFirst {} false [b "CONNECT example.com HTTP/1.1\r\n\r\n"] =
     .connected ⟨b "example.com", 443⟩ true (b "CONNECT / HTTP/1.1") := by decide +kernel
 /-- … and the two port-0 behaviours of finding D8b, end to end in the model -/
-example : handleFirst {} [b "GET http://h:0/ HTTP/1.1\r\n\r\n"] =
+example : handleFirst {} false [b "GET http://h:0/ HTTP/1.1\r\n\r\n"] =
     .connected ⟨b "h", 80⟩ false (b "GET / HTTP/1.1") := by decide +kernel
-example : handleFirst {} [b "CONNECT h:0 HTTP/1.1\r\n\r\n"] = .closeSilent := by decide +kernel
+example : handleFirst {} false [b "CONNECT h:0 HTTP/1.1\r\n\r\n"] = .closeSilent := by decide +kernel
+/-- with `--enable-conn-pool`: the pool key (and hence the connect) is the bare IPv6 address -/
+example : handleFirst {} true [b "GET http://[::1]:8080/x HTTP/1.1\r\nHost: x\r\n\r\n"] =
+    .connected ⟨b "::1", 8080⟩ false (b "GET /x HTTP/1.1") := by decide +kernel
 
 /-- `C14_no_misrouting`: an accepted target OUTSIDE the grammar (unbracketed IPv6): the
 last group is taken as the port and brackets are added — still pieces of the target -/
